@@ -1,31 +1,67 @@
 """C47 -- Parsing a file lazily equals parsing its contents (library(pio) phrase_from_file/2,3)."""
-import json, os, shutil
+import json, os, re, shutil, importlib.util
 from vlib import core
 
 META = {
-    "level": "other",
-    "text": ("The assurance is DIFFERENTIAL: for file contents whose sizes sit around the read-ahead of library(pio) (chars_to_read = 4096 characters: "
-             "0, 1, N-1, N, N+1, 2N-1, 2N, 2N+1, 3N+1) and around the 8192-byte chunk of the character reader, with multi-byte characters straddling each "
-             "boundary, and for grammars that need the whole text, count, stop early, enumerate several solutions, backtrack across a boundary, or fail, "
-             "phrase_from_file/2,3 (text and type(binary)) is compared with phrase/2 on the character list read from the same file by get_n_chars/3, and "
-             "both with an independent evaluation of the grammar on the bytes by Python: same success/failure, same number of solutions, same bindings "
-             "(lengths, hashes, characters). The small Coq theorems (lazy_list_is_list, chunk_size_irrelevant, phrase_on_lazy_eq, chunks_wellformed) only "
-             "state that in the reference reading of pio.pl the forced lazy list is the text for every chunk size; they say nothing about the attributed-"
-             "variable/freeze/reposition machinery, which is what the differential part exercises."),
-    "note": ("Trusted: the Python generator and its re-implementation of the eight grammars (the third opinion); harness vrun; the OS. Not covered: streams "
-             "without reposition (phrase_from_stream on pipes/sockets), grammars with side effects, files larger than ~13 k characters. No axioms."),
-    "technique": "differential testing (phrase_from_file vs phrase on the read characters vs an independent evaluation) + Coq sanity theorems over a reference lazy list",
+    "level": "proof",
+    "text": ("Coq theorems over an impl-mirror of the reading machinery of src/lib/pio.pl (coq/C47/Pio.v: stream_to_lazy_list/3, render_step/4, "
+             "buffer_at_end_of_stream/2, get/set_stream_buffer_position/3, buffer_get_n_chars/4, buffer_prepare_for_n/5, string_get_n_chars/4, "
+             "stream_bufferids/4, for reposition(true) AND reposition(false); a stream is (characters, position, log of get_n_chars calls), the lazy list is "
+             "the list of forced suspensions with the Pos saved in their goals): for EVERY content, EVERY chars_to_read > 0 and EVERY script of cell demands "
+             "and backtracking steps the consumer sees exactly the content (forced_list_is_content, mirror_chunk_size_irrelevant); suspensions re-forced after "
+             "backtracking are bound to the same cells, and without the set_stream_position call they are not (backtracking_reforce_same, _refuted); any parser "
+             "against the list interface (cell demands, choice points) has on the lazy list the solutions it has on the plain list, findall and once "
+             "(phrase_lazy_eq_phrase_list); reads are bounded (stops_early_reads_bounded, buffered_reads_bounded) and the bb buffer invariant holds "
+             "(buffer_invariant). The tie to the code: chars_to_read and the shape of 11 clauses are regenerated from pio.pl (gen/pio_params.py); the mirror is "
+             "run inside Coq (run_fast, proved equal to the mirror's run_lazy) on the same file contents with five grammars transcribed from their DCG "
+             "translation, and its solutions, the stream positions seen by probes inside the grammars and the final position must equal those observed on "
+             "phrase_from_stream/2 over streams opened by the driver with reposition(true) and reposition(false), text and binary. The differential part "
+             "(phrase_from_file/2,3 vs phrase/2 on the characters vs a Python evaluation, 8 grammars) is kept."),
+    "note": ("Mirrored: the clauses listed above, arm by arm (fuel only where the Prolog recursion needs a termination measure). NOT mirrored / trusted: the wake-up "
+             "of freeze/2 (attributed variables, trail): forcing and un-binding on backtracking are explicit operations of the mirror, the choice-point "
+             "discipline of a parser is the POr constructor; partial_string/3 and '$skip_max_list' are list append/prefix; get_n_chars/3, at_end_of_stream/1, "
+             "set_stream_position/2 and the OS are the three stream functions of Pio.v; stream positions are byte offsets in the implementation and "
+             "character counts in the mirror (the check converts with the UTF-8 length of the content prefix; for type(binary) characters are bytes, which "
+             "the mirror covers only by running on the byte list); the first (cut) clauses of seq//1 and ...//0, which test Cs0 == [] without binding, are not "
+             "represented in the transcribed grammars; contents with U+FEFF are excluded from the position comparison (known findings pio:U+FEFF-*, still "
+             "checked differentially). The number of get_n_chars calls is not observable without hooks: it is compared only through the positions. "
+             "buffered_reads_bounded has the bound ceil(k/n)+1 (the tight ceil(k/n) would need the divisibility of saved positions). Not covered: pipes/sockets, "
+             "grammars with side effects on the stream, a stale streams_buffers entry when a closed stream's handle is reused. No axioms."),
+    "technique": ("Coq proof (forced_list_is_content, backtracking_reforce_same(+_refuted), phrase_lazy_eq_phrase_list, stops_early_reads_bounded, buffered_reads_bounded, "
+                  "buffer_invariant, run_fast_is_run_lazy) over an impl-mirror model of pio.pl + regenerated constant/clause shapes + correspondence evaluated in Coq "
+                  "(solutions, probe positions, final position) + differential testing against phrase/2 and a Python evaluation"),
     "design_ref": "DESIGN.md section 8, C47",
-    "coq_targets": ["C47/Props.vo"], "coq_dirs": ["C47"], "props": "C47/Props.v",
-    "trusted_base": ["harness vrun + tools/vlib", "Python re-implementation of the test grammars", "Coq 8.16.1 kernel (sanity theorems only)"],
-    "assumptions": ["files are not modified while being parsed"],
+    "coq_targets": ["C47/Props.vo"], "coq_dirs": ["C47", "Gen"], "props": "C47/Props.v",
+    "trusted_base": ["Coq 8.16.1 kernel, vm_compute", "gen/pio_params.py translator (constant + clause shapes of pio.pl)", "harness vrun + tools/vlib",
+                     "transcription of the five probe grammars into parser trees (Pio.v, grammar)", "freeze/2 wake-up, get_n_chars/3, at_end_of_stream/1, set_stream_position/2, the OS: modelled, not verified",
+                     "Python re-implementation of the test grammars and the UTF-8 byte/character conversion"],
+    "assumptions": ["files are not modified while being parsed", "get_n_chars/3 delivers min(N, remaining) characters and at_end_of_stream/1 is exact (true for files)"],
 }
+
+
+def _translator():
+    spec = importlib.util.spec_from_file_location("gen_pio_params", os.path.join(core.ROOT, "gen", "pio_params.py"))
+    m = importlib.util.module_from_spec(spec)
+    spec.loader.exec_module(m)
+    return m
+
+
+def gen(ctx):
+    _translator().generate(core.REPO, os.path.join(core.COQ, "Gen", "PioParams.v"))
+
+
+def chars_to_read():
+    """the constant as regenerated into coq/Gen/PioParams.v"""
+    txt = open(os.path.join(core.COQ, "Gen", "PioParams.v")).read()
+    return int(re.search(r"Definition chars_to_read : N := (\d+)\.", txt).group(1))
+
 
 DRIVER = r"""
 :- use_module(library(dcgs)).
 :- use_module(library(pio)).
 :- use_module(library(lists)).
 :- use_module(library(charsio)).
+:- use_module(library(iso_ext)).
 c47_all(Cs) --> seq(Cs).
 c47_len(N) --> c47_len_(0, N).
 c47_len_(N0, N) --> [_], !, { N1 is N0 + 1 }, c47_len_(N1, N).
@@ -59,9 +95,28 @@ c47_case(Id, File, Type, Mode, Lazy, Ref, RefSum) :-
     c47_sols(Id, list(Cs), Ref),
     ( Mode == two -> How = lazy2(File) ; How = lazy3(File, [type(Type)]) ),
     c47_sols(Id, How, Lazy).
+% ---- phrase_from_stream/2 on a stream opened here, with probes of the stream position inside the grammar
+c47_probe(St) :- stream_property(St, position(position_and_lines_read(P, _))), bb_get(c47_log, L), ( L = [P|_] -> true ; bb_put(c47_log, [P|L]) ).
+c47p_fail --> "zzz", ... .
+c47p_first3(St, A, B, C) --> [A, B, C], { c47_probe(St) }, ... .
+c47p_all(St, Cs) --> seq(Cs), { c47_probe(St) }.
+c47p_needle(St, B) --> seq(Bs), "needle", { c47_probe(St) }, ..., { length(Bs, B) }.
+c47p_alt(St, A) --> ( seq(A), { c47_probe(St) }, "xy" | { c47_probe(St) }, seq(A), "xz" ).
+c47p_sol(fail, St, []) :- phrase_from_stream(c47p_fail, St).
+c47p_sol(first3, St, [X, Y, Z]) :- phrase_from_stream(c47p_first3(St, A, B, C), St), char_code(A, X), char_code(B, Y), char_code(C, Z).
+c47p_sol(all, St, [L, H]) :- phrase_from_stream(c47p_all(St, Cs), St), c47_hash(Cs, 0, 0, L, H).
+c47p_sol(needle, St, [B]) :- phrase_from_stream(c47p_needle(St, B), St).
+c47p_sol(alt, St, [L, H]) :- phrase_from_stream(c47p_alt(St, A), St), c47_hash(A, 0, 0, L, H).
+c47p_case(G, File, Type, Rp, Sols, Log, Final) :-
+    open(File, read, St, [type(Type), reposition(Rp)]),
+    bb_put(c47_log, []),
+    catch(findall(S, c47p_sol(G, St, S), Sols), E, Sols = exc(E)),
+    stream_property(St, position(position_and_lines_read(Final, _))),
+    bb_get(c47_log, Log0), reverse(Log0, Log),
+    close(St).
 """
 
-N = 4096           # chars_to_read of pio.pl (checked against the source in run)
+N = 4096           # replaced in run() by the constant regenerated from pio.pl (coq/Gen/PioParams.v)
 ALPHA = "abcfghijkmopqrstuvw"
 GRAMMARS = ["all", "len", "nls", "needle", "last", "alt", "fail", "first3"]
 
@@ -144,13 +199,106 @@ def norm(t):
     return ("?", json.dumps(t, ensure_ascii=False)[:200])
 
 
+# ---------------------------------------------------------------- the mirror side (coq/C47/Pio.v)
+IMPORTS = "From V Require Import C47.Pio Gen.PioParams."
+MGRAMMARS = {"fail": 0, "first3": 1, "all": 2, "needle": 3, "alt": 4}
+
+
+def segments(codes):
+    """compact Coq encoding of a content (list of code points / bytes): runs of the background text base(n), runs of
+    one repeated code, literals; checked by re-expansion"""
+    segs, i, n = [], 0, len(codes)
+
+    def bch(j):
+        return 10 if j % 61 == 60 else ord(ALPHA[j % len(ALPHA)])
+    lit = []
+
+    def flush():
+        if lit:
+            segs.append(("lit", list(lit))); lit.clear()
+    while i < n:
+        j = i
+        while j < n and codes[j] == bch(j): j += 1
+        if j - i >= 8:
+            flush(); segs.append(("base", i, j - i)); i = j; continue
+        j = i
+        while j < n and codes[j] == codes[i]: j += 1
+        if j - i >= 8:
+            flush(); segs.append(("rep", codes[i], j - i)); i = j; continue
+        lit.append(codes[i]); i += 1
+    flush()
+    back = []
+    for sg in segs:
+        if sg[0] == "base": back += [bch(j) for j in range(sg[1], sg[1] + sg[2])]
+        elif sg[0] == "rep": back += [sg[1]] * sg[2]
+        else: back += sg[1]
+    assert back == list(codes)
+    out = []
+    for sg in segs:
+        if sg[0] == "base": out.append("SBase %d %d" % (sg[1], sg[2]))
+        elif sg[0] == "rep": out.append("SRep %d %d" % (sg[1], sg[2]))
+        else: out.append("SLit [%s]" % "; ".join(str(c) for c in sg[1]))
+    return "[%s]%%N" % "; ".join(out) if out else "[]"
+
+
+def mexpected(g, codes):
+    """solutions of the probe grammar g on the code list (Python opinion), in the answer format of c47p_sol/3"""
+    def hh(xs):
+        x = 0
+        for c in xs: x = (x * 31 + c) % 2147483647
+        return x
+    n = len(codes)
+    if g == "fail": return [[]] if codes[:3] == [122, 122, 122] else []
+    if g == "first3": return [codes[:3]] if n >= 3 else []
+    if g == "all": return [[n, hh(codes)]]
+    if g == "needle":
+        nd = [ord(c) for c in "needle"]
+        return [[i] for i in range(n - 5) if codes[i:i + 6] == nd]
+    if g == "alt":
+        out = []
+        if codes[-2:] == [120, 121]: out.append([n - 2, hh(codes[:-2])])
+        if codes[-2:] == [120, 122]: out.append([n - 2, hh(codes[:-2])])
+        return out
+
+
+def mirror_cases(rng, conts, thorough):
+    """(content index, grammar, type, reposition) for the mirror comparison"""
+    out = []
+    for k, (name, cs) in enumerate(conts):
+        if "\ufeff" in cs:
+            continue            # known findings pio:U+FEFF-*: get_n_chars/3 drops the character, positions are those of another text
+        kind = re.match(r"[a-z_]+", name).group(0)
+        gs = ["fail"]
+        if kind in ("plain", "multi"): gs += ["all", "first3"]
+        elif kind == "needle": gs += ["needle"]
+        elif kind in ("end_xy", "end_xz"): gs += ["alt"]
+        elif kind == "zzz": pass
+        else: gs += [rng.choice(["all", "needle", "alt", "first3"])] + (["alt", "needle"] if thorough else [])
+        for g in gs:
+            for rp in ("true", "false"):
+                out.append((k, g, "text", rp))
+        if kind == "multi" or kind.startswith("straddle"):
+            out.append((k, rng.choice(["all", "first3", "alt"]), "binary", rng.choice(["true", "false"])))
+    return out
+
+
+def jnum(t):
+    return int(t["i"]) if isinstance(t, dict) and "i" in t else None
+
+
 def run(ctx):
+    global N
     rng = ctx.rng
     failures, tie_breaks = [], []
     src = open(os.path.join(core.REPO, "src/lib/pio.pl")).read()
+    try:
+        N = chars_to_read()
+    except Exception as e:
+        tie_breaks.append({"kind": "translator", "what": "coq/Gen/PioParams.v does not define chars_to_read", "detail": str(e)})
     if "chars_to_read(%d)." % N not in src:
-        tie_breaks.append({"kind": "translator", "what": "chars_to_read/1 of pio.pl is no longer %d: the boundary sizes of the check must follow it" % N, "detail": ""})
+        tie_breaks.append({"kind": "translator", "what": "chars_to_read/1 of pio.pl is not the regenerated constant %d" % N, "detail": ""})
     conts = contents(rng)
+    mcases = mirror_cases(rng, conts, ctx.thorough)
     d = "/var/tmp/verif_C47_%d" % os.getpid()
     shutil.rmtree(d, ignore_errors=True)
     os.makedirs(d)
@@ -168,6 +316,10 @@ def run(ctx):
         for j in range(0, len(cases), per):
             qs = ["c47_case(%s, \"%s\", %s, %s, Lazy, Ref, RefSum)." % (g, os.path.join(d, "f%d.txt" % k), ty, mode) for (k, g, ty, mode) in cases[j:j + per]]
             jobs.append({"id": "j%d" % j, "consult": DRIVER, "fresh": True, "timeout_ms": 120000, "max_answers": 2, "queries": qs})
+        mper = 10
+        for j in range(0, len(mcases), mper):
+            qs = ["c47p_case(%s, \"%s\", %s, %s, Sols, Log, Final)." % (g, os.path.join(d, "f%d.txt" % k), ty, rp) for (k, g, ty, rp) in mcases[j:j + mper]]
+            jobs.append({"id": "m%d" % j, "consult": DRIVER, "fresh": True, "timeout_ms": 120000, "max_answers": 2, "queries": qs})
         rng.shuffle(jobs)
         res = core.vrun_query(ctx.prop, jobs, tag="q")
     finally:
@@ -221,10 +373,92 @@ def run(ctx):
                 seen.add((k, g, ty, mode)); nontriv += 1
             if len(samples) < 6 and n >= N and g in ("needle", "alt", "all"):
                 samples.append({"query": q, "phrase_from_file": str(lazy)[:200], "phrase": str(ref)[:200]})
+    # ------------------------------------------------------------ mirror vs implementation (phrase_from_stream/2 on streams opened by the driver)
+    mdist = {"grammar": {}, "reposition": {}, "type": {}, "position_traces": {}, "stopped_before_end": 0}
+    exprs, metas = [], []
+    mseen = set()
+    for j in range(0, len(mcases), mper):
+        rec = res.get("m%d" % j, {})
+        rs = rec.get("results") or []
+        for off, (k, g, ty, rp) in enumerate(mcases[j:j + mper]):
+            name, cs = conts[k]
+            raw = "".join(cs).encode("utf-8")
+            codes = [ord(c) for c in cs] if ty == "text" else list(raw)
+            q = "c47p_case(%s, <file %s: %d chars>, %s, %s, Sols, Log, Final)." % (g, name, len(cs), ty, rp)
+            ans = rs[off] if off < len(rs) else None
+            if not ans or not isinstance(ans[0], dict) or "b" not in ans[0]:
+                failures.append({"key": "pio:stream:no-answer", "what": "phrase_from_stream/2 on a stream opened by the driver: no answer (crash, hang, uncaught error)", "input": q,
+                                 "impl": json.dumps(ans if ans is not None else rec)[:400], "spec": "one answer", "property_fails": True})
+                continue
+            b = ans[0]["b"]
+            sols = norm(b["Sols"])
+            exp = mexpected(g, codes)
+            evals += 1
+            if sols != exp:
+                key = "pio:stream:mismatch:%s:reposition-%s" % (g, rp)
+                if per_key.get(key, 0) < 3:
+                    per_key[key] = per_key.get(key, 0) + 1
+                    failures.append({"key": key, "what": "phrase_from_stream/2 (stream opened with reposition(%s), type(%s)) differs from the grammar's solutions on the characters" % (rp, ty),
+                                     "input": q, "impl": str(sols)[:300], "spec": str(exp)[:300], "property_fails": True})
+                continue
+            # byte offsets -> character counts
+            if ty == "text":
+                off2ch, o = {0: 0}, 0
+                for i, c in enumerate(cs):
+                    o += len(c.encode("utf-8")); off2ch[o] = i + 1
+            else:
+                off2ch = {i: i for i in range(len(raw) + 1)}
+            log_b = [jnum(x) for x in (b["Log"].get("l") or [])] if isinstance(b["Log"], dict) else []
+            fin_b = jnum(b["Final"])
+            if fin_b not in off2ch or any(x not in off2ch for x in log_b):
+                tie_breaks.append({"kind": "harness", "what": "a stream position observed on the implementation is not at a character boundary of the file", "detail": q + " log=%s final=%s" % (log_b, fin_b)})
+                continue
+            log_c, fin_c = [off2ch[x] for x in log_b], off2ch[fin_b]
+            exprs.append("check_case %s chars_to_read %d %s [%s] [%s]%%N %d" % (
+                rp, MGRAMMARS[g], segments(codes),
+                "; ".join("[%s]%%N" % "; ".join(str(x) for x in sol) if sol else "[]" for sol in sols),
+                "; ".join(str(x) for x in log_c), fin_c))
+            metas.append((q, k, g, ty, rp, codes, sols, log_c, fin_c))
+            mdist["grammar"][g] = mdist["grammar"].get(g, 0) + 1
+            mdist["reposition"][rp] = mdist["reposition"].get(rp, 0) + 1
+            mdist["type"][ty] = mdist["type"].get(ty, 0) + 1
+            tl = str(len(log_c))
+            mdist["position_traces"][tl] = mdist["position_traces"].get(tl, 0) + 1
+            if fin_c < len(codes): mdist["stopped_before_end"] += 1
+            if len(codes) >= N and (k, g, ty, rp) not in mseen:
+                mseen.add((k, g, ty, rp)); nontriv += 1
+            if len(samples) < 9 and len(codes) > N and g in ("alt", "needle") and len(log_c) >= 2:
+                samples.append({"query": q, "solutions": str(sols)[:120], "probe_positions_chars": log_c, "final_position_chars": fin_c})
+    if exprs:
+        order = list(range(len(exprs)))
+        rng.shuffle(order)
+        chunk = max(8, -(-len(order) // (2 * core.NPROC)))
+        bad, errors = core.coq_eval_bools(ctx.prop, IMPORTS, [exprs[i] for i in order], chunk=chunk, timeout=900)
+        for (sh, err) in errors:
+            tie_breaks.append({"kind": "coq-eval", "what": "the mirror comparison could not be evaluated (shard %s)" % sh, "detail": str(err)[-1500:]})
+        shown = 0
+        for bi in bad:
+            q, k, g, ty, rp, codes, sols, log_c, fin_c = metas[order[bi]]
+            spec = ""
+            if shown < 3:
+                shown += 1
+                spec = core.coq_eval_show(ctx.prop, IMPORTS, "let o := run_case %s chars_to_read %d (expand %s) in (o_sols o, o_log o, o_final o, o_reads o)" % (rp, MGRAMMARS[g], segments(codes)))
+            key = "pio:mirror:%s:reposition-%s" % (g, rp)
+            if per_key.get(key, 0) < 3:
+                per_key[key] = per_key.get(key, 0) + 1
+                tie_breaks.append({"kind": "coq-eval", "what": "the impl-mirror of pio.pl (coq/C47/Pio.v) and the implementation disagree on solutions / probe positions / final position: "
+                                   "the theorems no longer describe the code (or the code re-reads differently)",
+                                   "detail": "%s  [%s] implementation (positions in characters): sols=%s log=%s final=%s ; mirror (sols, log, final, reads): %s" % (q, key, sols, log_c, fin_c, spec[-600:])})
+    dist["mirror"] = mdist
+    dist["chars_to_read"] = N
     return {"evaluations": evals, "distinct_nontrivial": nontriv,
             "rule": ("a case = (file content, grammar, stream type, phrase_from_file/2 or /3); contents: 11 sizes around the 4096-character read-ahead x {plain, "
                      "multi-byte characters on the boundaries, 'needle' across the boundaries, ending in xy/xz with decoys, starting with zzz} + 8 contents with "
                      "multi-byte characters straddling byte 8192 / character 4096 / 8192 + 10 seed-dependent contents + 3 with U+FEFF; 8 grammars (whole text, "
                      "length, newline count, all positions of a needle, last character, alternative that fails late and re-reads, failing, first three). "
-                     "Non-trivial = distinct case whose content has at least 4096 characters (the lazy list is materialised in more than one read)."),
+                     "Non-trivial = distinct case whose content has at least chars_to_read characters (the lazy list is materialised in more than one read). "
+                     "Mirror cases = (content without U+FEFF, probe grammar in fail/first3/all/needle/alt chosen by the kind of content, text or binary, "
+                     "reposition(true|false)) run through phrase_from_stream/2 on a stream opened by the driver; the solutions, the distinct consecutive stream positions "
+                     "seen by the probes and the final position are compared inside Coq (check_case) with the run of the impl-mirror on the same content and the "
+                     "regenerated chars_to_read; non-trivial under the same rule."),
             "samples": samples, "distribution": dist, "failures": failures, "tie_breaks": tie_breaks}
